@@ -605,3 +605,40 @@ Proof.
   destruct (final_older mid st1) as [_ O2]. fold st2 in O2.
   destruct (O2 Ee Fh) as [_ Set2]. lia.
 Qed.
+
+(* ------------------------------------------- the under-load period slides *)
+
+Lemma consume_load s now m body : d_load_until (fst (consume s now m body)) = d_load_until s.
+Proof.
+  unfold consume, consume_init, consume_resp.
+  destruct (m_type m =? MessageInitiationType).
+  - destruct (m_content m) as [[p|] [|]| | | |]; try reflexivity.
+    destruct (find_peer (d_peers s) p) as [x|]; [|reflexivity].
+    destruct (add_macs (p_id x) (p_gen x) now (TBody body)) as [[g m1] m2]. reflexivity.
+  - destruct (m_content m) as [|[p|] h| | |]; try reflexivity.
+    destruct (find_peer (d_peers s) p) as [x|]; [|reflexivity].
+    destruct ((p_hs x =? 1) && (p_hid x =? h)); reflexivity.
+Qed.
+
+(* Every handshake message with valid MAC1 that finds the queue at least an eighth full moves the
+   end of the under-load period to UnderLoadAfterTime after ITS arrival, whatever the end was
+   before: the period lasts 1 s after the LAST such observation, not after the first. *)
+Theorem load_period_slides st now m al nonce body :
+  gate m = true -> is_hs m = true -> check_mac1 (d_pk st) m = true ->
+  d_load_until (fst (step st (ERecv now m true al nonce body))) = now + UnderLoadAfterTime.
+Proof.
+  intros G H M1. cbn [step]. rewrite recv_hs by assumption.
+  unfold recv_handshake, hs_gates. rewrite M1. cbn [negb is_under_load].
+  destruct (check_mac2 (with_load st (now + UnderLoadAfterTime)) now m); cbn [negb].
+  - destruct al; cbn [negb]; [rewrite consume_load|]; reflexivity.
+  - unfold create_reply, refresh. destruct (secret_stale (with_load st (now + UnderLoadAfterTime)) now); reflexivity.
+Qed.
+
+Theorem still_under_load_after_last_detection st now m al nonce body now2 :
+  gate m = true -> is_hs m = true -> check_mac1 (d_pk st) m = true ->
+  now2 < now + UnderLoadAfterTime ->
+  under_load (fst (step st (ERecv now m true al nonce body))) now2 false = true.
+Proof.
+  intros G H M1 T. unfold under_load, is_under_load. cbn [snd].
+  rewrite (load_period_slides st now m al nonce body G H M1). apply N.ltb_lt. exact T.
+Qed.
